@@ -47,6 +47,16 @@ def make_variant(root, variant):
         modname = modpath.split("::")[-1]
         with open(target, "a") as fh:
             fh.write('\n#[cfg(kani)] #[path = "%s/mod.rs"] pub(crate) mod %s;\n' % (mdir, modname))
+    if "dl64" in variant:
+        _rewrite(os.path.join(repo, "statime/src/datastructures/messages/mod.rs"),
+                 r"^pub const MAX_DATA_LEN: usize = 1024;", "pub const MAX_DATA_LEN: usize = 64;",
+                 "MAX_DATA_LEN 1024 -> 64")
+    if "lists1" in variant:
+        fm = os.path.join(repo, "statime/src/bmc/foreign_master.rs")
+        _rewrite(fm, r"^const MAX_ANNOUNCE_MESSAGES: usize = 8;", "const MAX_ANNOUNCE_MESSAGES: usize = 2;",
+                 "MAX_ANNOUNCE_MESSAGES 8 -> 2")
+        _rewrite(fm, r"^const MAX_FOREIGN_MASTERS: usize = 8;", "const MAX_FOREIGN_MASTERS: usize = 1;",
+                 "MAX_FOREIGN_MASTERS 8 -> 1")
     if "dl128" in variant:
         _rewrite(os.path.join(repo, "statime/src/datastructures/messages/mod.rs"),
                  r"^pub const MAX_DATA_LEN: usize = 1024;", "pub const MAX_DATA_LEN: usize = 128;",
